@@ -24,7 +24,7 @@ for diff in sorted(glob.glob(os.path.join(outdir, "m*.diff"))):
         suite_ok = "passed" in ot and "failed" not in ot and "error" not in ot.lower()
         rc1, o1 = sh(f"PYTHONPATH={S} /venv/bin/python {demo}", cwd=S, timeout=600)
         t0 = time.time()
-        rcc, oc = sh(f"./check {pid} --tier {tier}", cwd=V, env={"VERIF_REPO": S})
+        rcc, oc = sh(f"./check {pid} --tier {tier}", cwd=V, env={"VERIF_REPO": S, "VERIF_EVIDENCE_DIR": os.path.join(S, "evidence-scratch")})
         dt = time.time() - t0
         viol = [l for l in oc.splitlines() if l.startswith("VIOLATION") or l.strip().startswith("oracle=")]
         confirmed = suite_ok and rc0 == 0 and rc1 == 1
